@@ -42,14 +42,14 @@ func (cx *Ctx) handlerTargets(v ssa.Value) []*ssa.Function {
 		if strings.HasPrefix(fn.Synthetic, "bound method wrapper") {
 			if obj, ok := fn.Object().(*types.Func); ok {
 				if m := w.Prog.FuncValue(obj); m != nil {
-					return []*ssa.Function{m}
+					return []*ssa.Function{canon(m)}
 				}
 			}
 			return nil
 		}
 		return []*ssa.Function{fn}
 	case *ssa.Function:
-		return []*ssa.Function{x}
+		return []*ssa.Function{canon(x)}
 	case *ssa.Call:
 		// a handler wrapped by a module function - observe(name, next) returning next or a closure around it: the
 		// targets of this very call are the closures the wrapper makes and the handlers passed to this call
